@@ -490,7 +490,7 @@ func c16Types(w *World, r *Report) {
 	for _, b := range ext.Blocks {
 		for _, in := range b.Instrs {
 			bo, isBo := in.(*ssa.BinOp)
-			if !isBo || bo.Op != token.EQL {
+			if !isBo || (bo.Op != token.EQL && bo.Op != token.NEQ) {
 				continue
 			}
 			isFlag := func(v ssa.Value) bool {
@@ -511,7 +511,7 @@ func c16Types(w *World, r *Report) {
 			}
 			if i, ok := constInt(cv); ok && (i == '0' || i == '5') { // tar.TypeReg, tar.TypeDir
 				for _, e := range condEdges(bo) {
-					if e.truth {
+					if e.truth == (bo.Op == token.EQL) {
 						okEdges = append(okEdges, e.Edge)
 					}
 				}
